@@ -449,7 +449,7 @@ def stream_real(ctx: Ctx) -> Stream:
 	sources = gen_sources(ctx, rng, ctx.scale(60, 600), ctx.scale(6, 60))
 	cases = corpus_cases()
 	limit = ctx.scale(6000, 12000)
-	for label, root in parse_all(app, sources):
+	for label, root in diskproj.bounded(parse_all(app, sources), *diskproj.budgets(ctx), label=lambda x: x[0]):
 		# whole trees when small enough for one protocol line, otherwise every top-level statement subtree
 		parts = [root] if tree_size(root) <= limit else [c for c in root.children if c is not None and tree_size(c) <= limit]
 		for k, t in enumerate(parts):
@@ -467,7 +467,7 @@ def stream_random(ctx: Ctx) -> Stream:
 	rng = ctx.sub_rng('entry-random')
 	hist: dict[str, int] = {}
 	cases = []
-	for i in range(ctx.scale(400, 5000)):
+	for i in diskproj.bounded(range(ctx.scale(400, 5000)), *diskproj.budgets(ctx)):
 		malformed = i % 4 == 3
 		t = gen_lark(rng, 1 + i % 4, 1 + i % 5, malformed, hist)
 		cases.append(case_tree({'kind': 'malformed' if malformed else 'random', 'entries': tree_size(t)}, t))
@@ -481,7 +481,7 @@ def stream_loads(ctx: Ctx) -> Stream:
 	rng = ctx.sub_rng('entry-loads')
 	hist: dict[str, int] = {}
 	cases = []
-	for i in range(ctx.scale(500, 6000)):
+	for i in diskproj.bounded(range(ctx.scale(500, 6000)), *diskproj.budgets(ctx)):
 		v = gen_stored(rng, 1 + i % 3, hist)
 		cases.append(({'kind': 'stored'}, [f'loads\t{show_val(v)}'], [real_loads(v)]))
 	st = common.correspond('entry-loads', cases, 'entry', classify=lambda d: d['kind'])
@@ -638,7 +638,7 @@ def stream_text(ctx: Ctx) -> Stream:
 		subs = [c for c in root.children if type(c) is lark.Tree and tree_size(c) <= 250]
 		for c in rng.sample(subs, min(len(subs), 3)):
 			trees_.append((label, c))
-	for label, t in trees_:
+	for label, t in diskproj.bounded(trees_, *diskproj.budgets(ctx), label=lambda x: x[0]):
 		ops = [f'tree\t{lark_sexp(t)}', 'print', 'rttext']
 		real = [f'ok {tree_size(t)}']
 		try:
@@ -652,7 +652,7 @@ def stream_text(ctx: Ctx) -> Stream:
 		real.append(real_rt(t))
 		o2, r2 = text_ops(rng, text, ctx.scale(10, 14))
 		cases.append(({'kind': 'tree:' + label.split('#')[0].split(':')[0]}, ops + o2, real + r2))
-	for i in range(ctx.scale(250, 3000)):
+	for i in diskproj.bounded(range(ctx.scale(250, 3000)), *diskproj.budgets(ctx)):
 		v = gen_json_value(rng, 1 + i % 4)
 		text = json.dumps(v, separators=(',', ':'))
 		ops = [f'printv\t{show_val(v)}']
@@ -695,7 +695,7 @@ def search_views(ctx: Ctx) -> SearchResult:
 	for i in range(ctx.scale(600, 8000)):
 		trees_.append((f'random#{i}', gen_lark(rng, 1 + i % 5, 1 + i % 5, False, hist)))
 	seen = set()
-	for label, t in trees_:
+	for label, t in diskproj.bounded(trees_, *diskproj.budgets(ctx), label=lambda x: x[0]):
 		res.cases += 1
 		fresh = view_tuple(EntryOfLark(t))
 		seen.add(hash(fresh))
@@ -735,7 +735,7 @@ def search_truncation(ctx: Ctx) -> SearchResult:
 	trees_: list[tuple[str, Any]] = parse_all(app, gen_sources(ctx, rng, ctx.scale(20, 300), ctx.scale(2, 20)))
 	trees_ += [(f'random#{i}', gen_lark(rng, 1 + i % 4, 1 + i % 4, False, hist)) for i in range(ctx.scale(150, 2000))]
 	seen = set()
-	for label, t in trees_:
+	for label, t in diskproj.bounded(trees_, *diskproj.budgets(ctx), label=lambda x: x[0]):
 		buf = io.BytesIO()
 		try:
 			EntryStored(EntryOfLark(t)).save(buf)
@@ -798,7 +798,7 @@ def search_nodes(ctx: Ctx) -> SearchResult:
 		modules.append((rel[:-3].replace(os.sep, '.'), rel))
 	seen = set()
 	exercised = 0
-	for mp, label in modules:
+	for mp, label in diskproj.bounded(modules, *diskproj.budgets(ctx), label=lambda x: x[1]):
 		try:
 			ep1 = proj.entrypoint(mp)
 		except Exception:  # noqa: BLE001 - outside the grammar
@@ -858,6 +858,7 @@ STATEMENTS = {
 	'shape_save': "EntryStored.save is json.dumps(data, separators=(',', ':')).encode('utf-8') with every other option default; only Serialization/EntryStored read Entry.source (scan of rogw/)",
 	'shape_identity': 'the tree-cache identity is (grammar_mtime, grammar, start, algorithem, mtime): the full str(mtime) expressions and the parser setting, pinned verbatim and in this order; the parser-pickle identity has the keys mtime, grammar, start, algorithem',
 	'identity_injective': 'the str(identity) text that is hashed determines all five components, for plain components (printable ASCII without quote and backslash: there repr(s) is the text between single quotes); md5 itself is not modelled',
+	'cache_file_injective': 'two runs share a module\'s cache file name (<path>-<md5 of str(identity)>.json) only if all five identity components agree — under exactly one hypothesis about md5, Md5CollisionFreeOnIdentities: no collision among tree-cache identity texts',
 	'dumps_ok_iff': 'dumps(t) succeeds exactly when every source_map in the view of t can be read (fails only with AttributeError on a non-empty Meta lacking attributes — never produced by lark)',
 	'store_total': 'for trees whose non-empty metas carry all four attributes (all lark output) store→load always succeeds and preserves the view',
 	'store_total_partial': 'the guard is exact: store→load succeeds (and preserves the view) precisely on the well-formed trees',
@@ -894,7 +895,7 @@ def stream_identity(ctx: Ctx) -> Stream:
 	proj = diskproj.DiskProject(os.path.join(ctx.tmpdir(), 'proj'), ctx.tmpdir())
 	lines, real, descs = [], [], []
 	second = int(__import__('time').time()) - 5000
-	for i in range(ctx.scale(12, 80)):
+	for i in diskproj.bounded(range(ctx.scale(12, 80)), *diskproj.budgets(ctx)):
 		src, _ = pygen.gen_module(rng, n_statements=1)
 		mp = f'idn.m{i}'
 		rel = proj.write(mp, src)
@@ -942,13 +943,30 @@ def stream_identity(ctx: Ctx) -> Stream:
 	return st
 
 
+def guard_stream(fn: Any, ctx: Ctx) -> Stream:
+	"""a case of the real code that exceeds its budget is a disagreement of the stream (named case), not a hang"""
+	def on_timeout(case: Any) -> Stream:
+		st = Stream(fn.__name__.replace('stream_', 'entry-' if PROP == 'C15' else 'span-'))
+		st.disagreements.append({'case': case, 'op': '(budget)', 'real': 'the real code did not finish within the per-case budget', 'model': '-'})
+		return st
+	return diskproj.guarded(fn, ctx, on_timeout)
+
+
+def guard_search(fn: Any, ctx: Ctx) -> Any:
+	def on_timeout(case: Any) -> SearchResult:
+		res = SearchResult(f'{fn.__name__}: budget')
+		res.findings.append(Finding(key='real-code-exceeds-budget', what=f'{fn.__name__}: the real code did not finish within the per-case budget on {case}', replay={'case': case}))
+		return res
+	return diskproj.guarded(fn, ctx, on_timeout)
+
+
 def run(ctx: Ctx) -> int:
 	translate_ok, translate_msg = translate(ctx)
 	proof = common.prove(ctx, PROP, leanchecker=ctx.thorough)
 	with ctx.timed('correspondence'):
-		streams = [stream_real(ctx), stream_random(ctx), stream_loads(ctx), stream_text(ctx), stream_identity(ctx)]
+		streams = [guard_stream(f, ctx) for f in (stream_real, stream_random, stream_loads, stream_text, stream_identity)]
 	with ctx.timed('search'):
-		searches = [search_views(ctx), search_nodes(ctx), search_truncation(ctx)]
+		searches = [guard_search(f, ctx) for f in (search_views, search_nodes, search_truncation)]
 	return common.finish(ctx, proof, streams, searches,
 		translate_ok=translate_ok, translate_msg=translate_msg,
 		statements=STATEMENTS,
@@ -960,7 +978,7 @@ def run(ctx: Ctx) -> int:
 			'names and token values are str, positions are None or int (what lark produces); other attribute types are outside the model',
 			"CPython's json encoder/decoder behave as modelled by printJson/parseJson (stream entry-text on every run); white space, floats, lone surrogates and duplicate keys are outside the model",
 			'downstream code observes a tree only through the Entry interface: the translator scans rogw/ on every run and theorem shape_save fixes the readers of Entry.source to Serialization/EntryStored',
-			'md5 (Cached.identifier) is not modelled: identity_injective is about the hashed text',
+			'md5 (Cached.identifier) is a parameter: cache_file_injective needs exactly Md5CollisionFreeOnIdentities (no md5 collision among tree-cache identity texts)',
 		],
 		trusted=['lark.Tree / lark.Token / lark.tree.Meta attribute semantics (Tree.meta creates an empty Meta on demand)'])
 
